@@ -100,7 +100,7 @@ def mk_case(s, chunks, bufsize, end, pf, qe, parsing):
 def wrapper_api(ctx, rng):
     """SocketWrapper.read(n) / readline() against the abstract byte sequence."""
     for _ in range(200 if ctx.quick() else 3000):
-        data = bytes(rng.choice([0x0a, 0x41, 0x00, rng.randrange(256)]) for _ in range(rng.randrange(0, 30)))
+        data = bytes(rng.choice([0x0a, 0x0a, 0x0d, 0x41, 0x00, rng.randrange(256)]) for _ in range(rng.randrange(0, 30)))
         cuts = sorted(rng.sample(range(1, len(data)), min(max(len(data) - 1, 0), rng.randrange(0, 5)))) if len(data) > 1 else []
         chunks = rl.split_at(data, cuts)
         fs = rl.FakeSock(chunks, rng.choice(["close", "timeout", "oserror"]))
